@@ -12,7 +12,7 @@ from pbt.core import call, draw_tz, workdir
 
 PROP = "C14"
 TECHNIQUE = "Hypothesis-generated catalogs (awkward ids, all ms phases over 1900..2200, extreme / 17-digit doubles) through four write->load round trips compared field by field, bitwise"
-RULE = ("one case = catalog of 0..30 events (ids: printable ASCII <= 64 chars incl. ',' '\"' ';' and spaces; origin times uniform over "
+RULE = ("(1 case in 3: loads that cannot succeed are made right before the judged ASCII load, unjudged) one case = catalog of 0..30 events (ids: printable ASCII <= 64 chars incl. ',' '\"' ';' and spaces; origin times uniform over "
         "1900..2200 at every millisecond phase plus whole seconds; coordinates/depth/magnitude as shortest-repr decimals, arbitrary doubles and "
         "+-180, +-90, 0, -0.0) x integer catalog id x name x optional unmasked region (half of them with magnitude bins bound; events below the first edge occur) x write options (header, append in two parts); "
         "round trips: write_ascii->csep.load_catalog, to_dict->from_dict, write_json->load_json, to_dataframe->from_dataframe. "
